@@ -112,7 +112,7 @@ Shapes == CASE Variety = "full" -> {"one", "two", "blank", "role"} [] Variety = 
 SA == IF Variety = "mini" THEN {FALSE} ELSE BOOLEAN
 ParamSpecs == {[name |-> n, ty |-> t, sann |-> sa, sdef |-> sd, shape |-> sh] :
                  n \in Names, t \in {"inline", "field", "before", "none"}, sa \in SA, sd \in SA, sh \in Shapes}
-AttrSpecs == {[name |-> n, ty |-> t, sann |-> FALSE, sdef |-> FALSE, shape |-> sh] : n \in Names, t \in {"field", "before", "none"}, sh \in Shapes}
+AttrSpecs == {[name |-> n, ty |-> t, sann |-> sa, sdef |-> FALSE, shape |-> sh] : n \in Names, t \in {"field", "before", "none"}, sa \in SA, sh \in Shapes}
 RaiseSpecs == {[name |-> n, ty |-> "inline", sann |-> FALSE, sdef |-> FALSE, shape |-> sh] : n \in Names, sh \in Shapes}
 RetSpecs == {[name |-> "-", ty |-> t, sann |-> sa, sdef |-> FALSE, shape |-> sh] : t \in {"field", "before", "none"}, sa \in SA, sh \in Shapes}
 FieldSpecs == {[kind |-> "parameters", it |-> p] : p \in ParamSpecs} \cup {[kind |-> "attributes", it |-> a] : a \in AttrSpecs}
@@ -121,7 +121,10 @@ Structs == UNION {[1..n -> FieldSpecs] : n \in 1..MaxSecs}
 StructOK(st) ==
   /\ \A i, j \in 1..Len(st) : (i # j /\ st[i].kind = st[j].kind /\ st[i].kind \in {"parameters", "attributes"}) => st[i].it.name # st[j].it.name
   /\ Cardinality({j \in 1..Len(st) : st[j].kind = "returns"}) <= 1
-  /\ \A j \in 1..Len(st) : (st[j].it.ty # "none" => ~st[j].it.sann)      \* a written type: the signature is not asked
+  \* the documented object's signature may carry an annotation whether or not the docstring writes a type (sann is independent of
+  \* ty, in every field order): a written type takes precedence.  One object: attribute annotations come from a class, a return
+  \* annotation from a function
+  /\ ~((\E j \in 1..Len(st) : st[j].kind = "attributes" /\ st[j].it.sann) /\ (\E j \in 1..Len(st) : st[j].kind = "returns" /\ st[j].it.sann))
 
 DescCont(shape) == CASE shape = "one" -> <<>> [] shape = "two" -> <<Cont>> [] shape = "role" -> <<ContR>> [] OTHER -> <<Blank, Cont>>
 TypeFieldOf(kind) == CASE kind = "parameters" -> "type" [] kind = "attributes" -> "vartype" [] OTHER -> "rtype"
@@ -293,6 +296,19 @@ PlainText == (Done /\ NoSyntax) => sections = <<SecRec("text", RStripBlank(SeqFr
 
 \* C13: per kind, the documented things with their names, type sources and description lines
 ParsesBack == (Mode = "struct" /\ Final) => (Done /\ sections = expect)
+\* known (findings.d/C13.json): a `:type x:` / `:vartype x:` line written AFTER its `:param x:` / `:var x:` loses to the annotation of
+\* the signature / parent attribute (the type field only fills an annotation that is still None) - the documented precedence
+\* "inline type, type field, signature" holds only when the type field comes first.  Everything else must be equal.
+LateTypeLost(x, y) == x.ann = "sig" /\ y.ann = "field" /\ y.tf > y.first
+SameBut(a, b) ==
+  /\ Len(a) = Len(b)
+  /\ \A j \in 1..Len(a) :
+       /\ a[j].kind = b[j].kind /\ a[j].tl = b[j].tl /\ Len(a[j].items) = Len(b[j].items)
+       /\ \A m \in 1..Len(a[j].items) : LET x == a[j].items[m] y == b[j].items[m] IN
+            \/ x = y
+            \/ (a[j].kind \in {"parameters", "attributes"} /\ LateTypeLost(x, y)
+                 /\ [x EXCEPT !.ann = y.ann, !.tf = y.tf] = y)
+ParsesBackBeyondKnown == (Mode = "struct" /\ Final) => (Done /\ SameBut(sections, expect))
 
 \* every state is checked against the invariants; the replay harness gets the final states whose checksum is 0 mod EmitMod
 LineCode(ln) == (CASE ln.k = "blank" -> 1 [] ln.k = "text" -> 2 [] ln.k = "cont" -> 3 [] ln.k = "other" -> 5 [] OTHER -> 7)
